@@ -1,2 +1,9 @@
-#!/bin/sh
-exit 0
+#!/bin/bash
+# Build the checker offline from /verif/checker (module cache only).
+set -e
+cd "$(dirname "$0")/checker"
+export GOFLAGS=-mod=mod GOPROXY=off
+unset GOWORK GOTOOLCHAIN GOSUMDB
+mkdir -p ../bin ../evidence
+go build -o ../bin/fdocheck .
+echo "built $(cd .. && pwd)/bin/fdocheck"
